@@ -4,6 +4,9 @@
   CRModel/Refs.lean the C10 theorems are about.  A source edit that changes what one of these functions does to the id-valued
   references (a relation forgotten in a cleanup, a dropped cleanup call, a changed drop rule for incoming elements, ...) makes
   a `tie_*` theorem fail at build time, for all networks at once.
+  No translated function is cut short: `create_from_lanelet_network` is tied as a whole to `Net.cutOut`
+  (`tie_create_from_lanelet_network`), `remove_hanging_lanelet_members` to its end to `Scn.removeHanging`
+  (`tie_remove_hanging_lanelet_members`), and `Scenario.remove_lanelet` calls that translation, not the model.
 -/
 import Gen.SrcC10
 import CRModel.Refs
